@@ -63,6 +63,12 @@ pub fn draw_raw(r: &mut Rng) -> Vec<u8> {
 }
 
 pub fn draw_op(r: &mut Rng) -> WOp {
+    draw_op_with(r, cfg!(feature = "hooks"))
+}
+
+/// `allow_state`: may draw StateFin ops (needs the hooked build). The build-matrix transcript passes false so that
+/// hooked and unhooked builds execute the same op sequence.
+pub fn draw_op_with(r: &mut Rng, allow_state: bool) -> WOp {
     let v = r.below(5) as u8;
     match r.below(100) {
         0..=24 => {
@@ -110,7 +116,7 @@ pub fn draw_op(r: &mut Rng) -> WOp {
         }
         98 => WOp::MaxDist { v },
         _ => {
-            if cfg!(feature = "hooks") && r.chance(2, 3) {
+            if allow_state && r.chance(2, 3) {
                 WOp::StateFin { v, class: r.below(6) as u8, seed: r.next_u64(), n: *r.pick(&[50u32, 1000, 1 << 24, 1 << 31, 4_224_281_216, 4_000_000_000]), o: if r.chance(1, 2) { 30 } else { 28 } }
             } else {
                 let len = match r.below(6) {
@@ -456,4 +462,34 @@ pub fn shrink_op(op: &WOp) -> Vec<WOp> {
         WOp::MaxDist { .. } | WOp::Length { .. } | WOp::StateFin { .. } => {}
     }
     out
+}
+
+/// Objects shared by all caller threads of a race scenario: three generators (48 / 128 / 256 buckets) that have been
+/// fed seeded data.  `finalize_with_options` takes `&self`, so many threads may finalize the same generator at once;
+/// every such call must return what a sequential call returns.
+pub struct Shared {
+    pub short: tlsh::generate::Generator<tlsh::hashes::Short>,
+    pub normal: tlsh::generate::Generator<tlsh::hashes::NormalWithLongChecksum>,
+    pub long: tlsh::generate::Generator<tlsh::hashes::Long>,
+}
+impl Shared {
+    pub fn new(seed: u64) -> Shared {
+        let mut r = Rng::new(seed);
+        let mut s = Shared { short: Default::default(), normal: Default::default(), long: Default::default() };
+        let mut buf = vec![0u8; r.range(60, 400) as usize];
+        r.fill(&mut buf);
+        s.short.update(&buf);
+        s.normal.update(&buf);
+        // the long one gets low-entropy data so that the weak-bucket gates are exercised, too
+        let low: Vec<u8> = buf.iter().map(|b| b"ABCDE"[(*b % 5) as usize]).collect();
+        s.long.update(if r.chance(1, 2) { &buf } else { &low });
+        s
+    }
+    pub fn finalize(&self, which: u8, o: u8) -> String {
+        match which % 3 {
+            0 => format!("shared0 {}", render(&self.short.finalize_with_options(&options(o)))),
+            1 => format!("shared1 {}", render(&self.normal.finalize_with_options(&options(o)))),
+            _ => format!("shared2 {}", render(&self.long.finalize_with_options(&options(o)))),
+        }
+    }
 }
